@@ -9,7 +9,8 @@ Python → model:
   (replace in place or append), `d.update(e)` is `Dict.update`, a dict comprehension is `Dict.ofPairs`.
 * `merge_args_and_kwargs(function, args, kwargs, ignore_first)` is `mergeArgs names ignoreFirst args kwargs` where
   `names = list(inspect.signature(function).parameters)`.
-* CPython's own binding of a call `f(*args, **kwargs)` to positional-or-keyword parameters with defaults is `bind`
+* CPython's own binding of a call `f(*args, **kwargs)` to positional-or-keyword and keyword-only parameters with
+  defaults is `bind`
   (= `inspect.Signature.bind(...).arguments`) followed by `applyDefaults`; this is the *specification* of argument
   passing and also what every real invocation (`function(*args, **kwargs)`, `self._type_(**kwargs)`) does.
 * an argument written at a call site is `Arg.lit v` (an ordinary object, identified by a number) or `Arg.var i k`:
